@@ -15,14 +15,19 @@ META = {'assumptions': [
 ]}
 
 
-def _theta(ctx):
+# 'by any angle': the numeric angle is the principal value plus k whole turns (code that looks at the angle itself,
+# not only at its sine and cosine, is thereby decided for angles beyond half a turn)
+# The turn count is fixed per obligation (not a solver variable: an integer in the path condition would make
+# every query mixed integer / non-linear real).
+def _theta(ctx, k=0):
     ctx.notes['exact_trig'] = True     # cos(pi/2) is exactly 0 in the exact-real model
     if ctx.native:
         s = ctx.real('theta_sin')
         c = ctx.real('theta_cos')
         th = math.atan2(s, c)
-        return th, math.sin(th), math.cos(th)
+        return th + 2 * math.pi * k, math.sin(th), math.cos(th)
     a = SAngle.symbolic(ctx, 'theta')
+    a.k = k
     return a, a.s, a.c
 
 
@@ -34,9 +39,9 @@ def _num(ctx, v):
     return SReal(rv(v))
 
 
-def _check_rodrigues(ctx, ax, ay, az, tag=''):
+def _check_rodrigues(ctx, ax, ay, az, tag='', k=0):
     import propka.vector_algebra as V
-    theta, s, c = _theta(ctx)
+    theta, s, c = _theta(ctx, k)
     vx = ctx.real('vx', -10, 10)
     vy = ctx.real('vy', -10, 10)
     vz = ctx.real('vz', -10, 10)
@@ -62,7 +67,7 @@ def _check_rodrigues(ctx, ax, ay, az, tag=''):
     ctx.claim(tag + 'z', eq(n2 * r.z, ez))
 
 
-def mk_plane(zero):
+def mk_plane(zero, turns=0):
     """axis with the named component exactly 0, the other two symbolic (not
     both 0, any signs, either may itself be 0)"""
     def body(ctx):
@@ -71,14 +76,14 @@ def mk_plane(zero):
             comps[k] = 0.0 if k == zero else ctx.real('a' + k, -10, 10)
         others = [comps[k] for k in 'xyz' if k != zero]
         ctx.assume(Not(And(eq(others[0], 0), eq(others[1], 0))))
-        _check_rodrigues(ctx, comps['x'], comps['y'], comps['z'])
+        _check_rodrigues(ctx, comps['x'], comps['y'], comps['z'], k=turns)
     return body
 
 
-def mk_generic(axis):
+def mk_generic(axis, k=0):
     def body(ctx):
         ax, ay, az = (_num(ctx, v) for v in axis)
-        _check_rodrigues(ctx, ax, ay, az)
+        _check_rodrigues(ctx, ax, ay, az, k=k)
     return body
 
 
@@ -97,11 +102,15 @@ def generic_axes(tier):
     return out
 
 
-def o_matrices(ctx):
+def mk_matrices(k=0):
+    return lambda ctx: o_matrices(ctx, k)
+
+
+def o_matrices(ctx, k=0):
     """elementary rotation matrices: right-handed about +z / +y for a
     symbolic angle; Matrix4x4 @ Vector is the affine map"""
     import propka.vector_algebra as V
-    theta, s, c = _theta(ctx)
+    theta, s, c = _theta(ctx, k)
     vx = ctx.real('vx', -10, 10)
     vy = ctx.real('vy', -10, 10)
     vz = ctx.real('vz', -10, 10)
@@ -133,6 +142,20 @@ def obligations(tier):
         obs.append(Obligation('O2-axis(%d,%d,%d)' % a, mk_generic(a), code=code,
                               bounds='concrete generic axis %r (radicals kept exact); angle any; vector in [-10,10]^3' % (a,),
                               claim_doc='Rodrigues, per coordinate', query_timeout_ms=60000, wall_s=240))
+    # 'by any angle': the same for angles one or two whole turns away from the principal value (|theta| up to 5 pi).  The
+    # original code only takes sin and cos of the angle; code that looks at the angle itself (theta < 0, theta > pi) is
+    # decided through the SAngle comparisons.
+    for k in ((1, -1) if tier == 'quick' else (1, -1, 2, -2)):
+        obs.append(Obligation('O0-elementary-matrices[%+d turns]' % k, mk_matrices(k), code=code[1:],
+                              bounds='angle = principal value %+d whole turns, vector in [-10,10]^3' % k, claim_doc='as O0'))
+        for zero in 'xyz':
+            obs.append(Obligation('O1-axis-%s-zero[%+d turns]' % (zero, k), mk_plane(zero, k), code=code,
+                                  bounds='as O1-axis-%s-zero with the angle %+d whole turns away from its principal value' % (zero, k),
+                                  claim_doc='as O1', query_timeout_ms=30000, wall_s=200))
+        for a in generic_axes(tier)[::5 if tier == 'quick' else 3]:
+            obs.append(Obligation('O2-axis(%d,%d,%d)[%+d turns]' % (a + (k,)), mk_generic(a, k), code=code,
+                                  bounds='concrete generic axis %r; angle %+d whole turns away from its principal value' % (a, k),
+                                  claim_doc='Rodrigues, per coordinate', query_timeout_ms=60000, wall_s=240))
     return obs
 
 
